@@ -227,6 +227,10 @@ pub fn taxonomy(max_defs: usize) -> BoxedStrategy<Taxonomy> {
             defs.push(DefSpec { name: "marker".into(), is: vec![], has_is: false, extra: RDict::new() });
             defs.push(DefSpec { name: "choice".into(), is: vec![RVal::Symbol("marker".into())], has_is: true, extra: RDict::new() });
             defs.push(DefSpec { name: "entity".into(), is: vec![RVal::Symbol("marker".into())], has_is: true, extra: RDict::new() });
+            // the fourth kind root of the real defs; present in two taxonomies of three (when absent, defs may still name it)
+            if specs.len() % 3 != 0 {
+                defs.push(DefSpec { name: "val".into(), is: vec![], has_is: false, extra: RDict::new() });
+            }
             for (i, (edges, flavour, custom)) in specs.into_iter().enumerate() {
                 let plain: Vec<String> = defs.iter().filter(|d| !d.name.contains('-') && !d.name.contains(':')).map(|d| d.name.clone()).collect();
                 let mut name = match (&custom, flavour % 8) {
@@ -235,7 +239,9 @@ pub fn taxonomy(max_defs: usize) -> BoxedStrategy<Taxonomy> {
                 };
                 // a second row for a def that exists already (the last row of a name is the definition): its supertypes
                 // are taken from the defs *before the first row of that name*, so the table stays acyclic
-                let redefine: Option<usize> = if flavour % 8 == 5 && defs.len() > 4 { Some(3 + idx(edges.first().map_or(0, |e| e.0), defs.len() - 3)) } else { None };
+                // (never one of the kind roots: the fixed edges to `choice` / `entity` / `val` would close a cycle)
+                let redefine: Option<usize> = if flavour % 8 == 5 && defs.len() > 5 { Some(4 + idx(edges.first().map_or(0, |e| e.0), defs.len() - 4)) } else { None };
+                let redefine = redefine.filter(|j| !["marker", "choice", "entity", "val"].contains(&defs[*j].name.as_str()));
                 let first_row_of = |n: &str| defs.iter().position(|d| d.name == n).unwrap_or(0);
                 let limit = redefine.map_or(defs.len(), |j| first_row_of(&defs[j].name).max(1));
                 let mut is: Vec<RVal> = vec![];
@@ -245,7 +251,7 @@ pub fn taxonomy(max_defs: usize) -> BoxedStrategy<Taxonomy> {
                         1 => is.push(RVal::Str("junk".into())),
                         2 => is.push(RVal::num(*e as f64)),
                         3 => is.push(RVal::Symbol("choice".into())),
-                        4 => is.push(RVal::Symbol("entity".into())),
+                        4 => is.push(RVal::Symbol(if e % 3 == 0 { "val" } else { "entity" }.into())),
                         _ => is.push(RVal::Symbol(defs[idx(*e, limit)].name.clone())),
                     }
                 }
@@ -357,9 +363,12 @@ pub enum Query {
     Reflect(RDict),
     ReflectFits(RDict, String),
     FilterIsA(RDict, String),
+    /// the four convenience accessors fits_marker / fits_val / fits_choice / fits_entity (first field 0..4)
+    FitsKind(u8, String),
 }
 
-pub const QUERY_KINDS: usize = 12;
+pub const KIND_ROOTS: [&str; 4] = ["marker", "val", "choice", "entity"];
+pub const QUERY_KINDS: usize = 13;
 
 impl Query {
     pub fn make(kind: u8, a: &str, b: &str, rec: &RDict) -> Query {
@@ -375,7 +384,8 @@ impl Query {
             8 => Query::ConjunctsDefs(a.into()),
             9 => Query::Reflect(rec.clone()),
             10 => Query::ReflectFits(rec.clone(), a.into()),
-            _ => Query::FilterIsA(rec.clone(), a.into()),
+            11 => Query::FilterIsA(rec.clone(), a.into()),
+            _ => Query::FitsKind((b.len() % 4) as u8, a.into()),
         }
     }
     pub fn label(&self) -> &'static str {
@@ -392,11 +402,13 @@ impl Query {
             Query::Reflect(_) => "reflect",
             Query::ReflectFits(..) => "reflection.fits",
             Query::FilterIsA(..) => "filter ^symbol",
+            Query::FitsKind(..) => "fits_<kind>",
         }
     }
     pub fn to_json(&self) -> J {
         match self {
             Query::Fits(a, b) => json!({"q": self.label(), "a": a, "b": b}),
+            Query::FitsKind(k, a) => json!({"q": self.label(), "a": a, "kind": k}),
             Query::Reflect(r) => json!({"q": self.label(), "rec": to_json(&RVal::Dict(r.clone()))}),
             Query::ReflectFits(r, a) | Query::FilterIsA(r, a) => json!({"q": self.label(), "a": a, "rec": to_json(&RVal::Dict(r.clone()))}),
             Query::Get(a) | Query::Subtypes(a) | Query::AllSubtypes(a) | Query::Supertypes(a) | Query::AllSupertypes(a) | Query::Inheritance(a) | Query::ChoicesFor(a) | Query::ConjunctsDefs(a) => json!({"q": self.label(), "a": a}),
@@ -421,6 +433,7 @@ impl Query {
             "reflect" => Query::Reflect(rec()),
             "reflection.fits" => Query::ReflectFits(rec(), a),
             "filter ^symbol" => Query::FilterIsA(rec(), a),
+            "fits_<kind>" => Query::FitsKind(j["kind"].as_u64().unwrap_or(0) as u8, a),
             other => return Err(format!("unknown query {other}")),
         })
     }
@@ -474,6 +487,12 @@ pub fn ask_lib(ns: &'static Namespace<'static>, q: &Query) -> Answer {
             Answer::Set(s, d)
         }
         Query::Fits(a, b) => Answer::Bool(ns.fits(&sym(a), &sym(b))),
+        Query::FitsKind(k, a) => Answer::Bool(match k % 4 {
+            0 => ns.fits_marker(&sym(a)),
+            1 => ns.fits_val(&sym(a)),
+            2 => ns.fits_choice(&sym(a)),
+            _ => ns.fits_entity(&sym(a)),
+        }),
         Query::ChoicesFor(a) => {
             let (s, _) = names_of(ns.choices_for(&sym(a)).iter());
             Answer::Set(s, false)
@@ -510,6 +529,7 @@ pub fn ask_model(t: &Taxonomy, q: &Query) -> Answer {
         Query::AllSupertypes(a) => Answer::Set(t.all_supertypes(a), false),
         Query::Inheritance(a) => Answer::Set(t.inheritance(a), false),
         Query::Fits(a, b) => Answer::Bool(t.fits(a, b)),
+        Query::FitsKind(k, a) => Answer::Bool(t.fits(a, KIND_ROOTS[*k as usize % 4])),
         Query::ChoicesFor(a) => Answer::Set(t.choices_for(a), false),
         Query::ConjunctsDefs(a) => Answer::Set(t.conjunct_parts(a), false),
         Query::Reflect(r) => Answer::Set(t.reflect(r), false),
